@@ -12,6 +12,8 @@ from __future__ import annotations
 import importlib
 
 import numpy as np
+
+from .. import harness as H
 import pandas as pd
 
 PID = "C09"
@@ -226,6 +228,10 @@ def run_case(R, rng, it):
         R.count("coarse_date_strings")
     if grouped:
         kw["groups"] = labels
+    # the output dtype argument must not reach anything but the output (grouped and ungrouped alike)
+    odt = [None, None, "float32", "int32", "float64", "int16"][H.pick(it, 5, 6)]
+    if odt is not None:
+        kw["dtype"] = odt
     check_case(R, rng, tix, cube, dtype, nodata, kw, begin, end, ids if grouped else None)
 
 
@@ -271,7 +277,7 @@ def check_case(R, rng, tix, cube, dtype, nodata, kw, begin, end, ids):
     case = {"time": tix.values, "begin": None if begin is None else str(begin), "end": None if end is None else str(end),
             "labels": None if labels is None else [str(v) for v in labels], "cube": cube, "dtype": dtype, "nodata": nodata,
             "kw_begin": _enc(kw.get("calibration_begin")), "kw_end": _enc(kw.get("calibration_end")),
-            "kw_groups": None if labels is None else [_enc(v) for v in labels], "ids": ids if grouped else None}
+            "kw_groups": None if labels is None else [_enc(v) for v in labels], "ids": ids if grouped else None, "kw_dtype": kw.get("dtype")}
     strictly_inside = bool(inwin.sum() < n)
     R.evaluation()
     R.case(strictly_inside or k >= 2, tix.values, case["begin"], case["end"], case["labels"], cube)
@@ -318,7 +324,9 @@ def check_case(R, rng, tix, cube, dtype, nodata, kw, begin, end, ids):
             raise AssertionError("window not contiguous on a sorted axis")
         expect[:, :, sel] = st.gammastd_yxt(sub, nodata, s, e)
     R.count("cubes_compared")
-    if res.dtype != np.int16 or not np.array_equal(out, expect):
+    want_dt = np.dtype(kw.get("dtype", "int16"))
+    R.count(f"output_dtype_{want_dt.name}")
+    if res.dtype != want_dt or not np.array_equal(out, expect.astype(want_dt)):
         bad = np.argwhere(out != expect)
         R.violation("C09:window-or-grouping", f"spi(groups={'yes' if grouped else 'no'}, k={k}) differs from the per-group ungrouped SPI with window {exp_b}..{exp_e} at {len(bad)} cells (first {bad[0].tolist() if len(bad) else None}: {out[tuple(bad[0])] if len(bad) else ''} vs {expect[tuple(bad[0])] if len(bad) else ''})", case)
         return
@@ -418,6 +426,8 @@ def replay(case, R):
         kw["calibration_end"] = _dec(case["kw_end"])
     if case.get("kw_groups") is not None:
         kw["groups"] = [_dec(v) for v in case["kw_groups"]]
+    if case.get("kw_dtype") is not None:
+        kw["dtype"] = case["kw_dtype"]
     begin = None if case.get("begin") is None else pd.Timestamp(case["begin"])
     end = None if case.get("end") is None else pd.Timestamp(case["end"])
     ids = None if case.get("ids") is None else np.asarray(case["ids"]).astype(int)
